@@ -86,7 +86,9 @@ def run_property(pid, tier, seed, replay=None):
         if tie_broken and not V.violations:
             V.report(tie_broken, no_input=True)
         assumptions = getattr(mod, 'ASSUMPTIONS', [])
-        return V.finish('proof', cov, assumptions)
+        cov.setdefault('rule', 'programs come from per-property generators seeded by VERIF_SEED; schedules from random / PCT / preemption-bounded DFS / prefix sweeps over the real code under xvrt; a case counts as distinct when its (program, schedule, choices) differs, and as non-trivial when at least two threads (or a multi-operation sequence) actually interleave')
+        cov.setdefault('evaluations', 0); cov.setdefault('distinct_nontrivial', 0)
+        return V.finish(getattr(mod, 'LEVEL', 'proof'), cov, assumptions)
     finally:
         wd.close()
 
